@@ -4,6 +4,10 @@
 import Slinkyv
 namespace Slinky
 
+/-- peel a chain of `match … with | .error e => .error e | .ok x => …` in hypothesis `h`. -/
+macro "peel " h:ident : tactic =>
+  `(tactic| repeat (first | contradiction | split at $h:ident | dsimp only at $h:ident))
+
 theorem mem_dedupAux {α} [DecidableEq α] (seen l : List α) (x : α) :
     x ∈ dedupAux seen l ↔ x ∈ l ∧ x ∉ seen := by
   induction l generalizing seen with
